@@ -106,6 +106,10 @@ Fixpoint vcollect (fuel : nat) (v : view) (s : vstate) : list A :=
   end.
 Definition view_items (v : view) : list A := vcollect (S (elements (vshape v))) v (viter_new v).
 
+(* View::to_array: the elements in iteration order under the view's shape, with FRESH row-major strides
+   (Array::new_unchecked) - not the strides of the view, which are the parent's *)
+Definition view_to_array (v : view) : arr := {| adata := view_items v; ashape := vshape v |}.
+
 (* AxisIter{array, axis, index} *)
 Definition axis_next (x : arr) (a : nat) (i : nat) : nat * option view :=
   match get_axis x a i with Some v => (S i, Some v) | None => (i, None) end.
